@@ -73,6 +73,100 @@ Theorem C10_success : forall cs columns o lb rows nan k targets, 1 <= cs ->
 Proof. exact read_success. Qed.
 Print Assumptions C10_success.
 
+(* ---- the row chunks of the missing-value scan (R2.19): cells carry a missingness bit, the model
+   [pc_read_rc empty_chunk chunk_rows chunk_cols] reads every column slice row chunk by row chunk ---- *)
+
+(* the two interfaces of the model agree: [nan_cols] is the view "columns with a missing cell" *)
+Theorem C10_nan_cols_view : forall columns rowsm c,
+  In c (pc_nan_cols columns rowsm) <-> exists rm, In rm rowsm /\ pc_miss columns rm c = true.
+Proof. exact nan_cols_spec. Qed.
+Print Assumptions C10_nan_cols_view.
+
+Theorem C10_rc_as_read : forall ec cr cc columns o lb rowsm,
+  1 <= cr -> rowsm <> [] \/ ec = true ->
+  pc_read_rc ec cr cc columns o lb rowsm
+  = pc_read cc columns o lb (map fst rowsm) (pc_nan_cols columns rowsm).
+Proof. exact read_rc_as_read. Qed.
+Print Assumptions C10_rc_as_read.
+
+(* C10_chunk_free for both chunk sizes: parsing depends neither on the row-chunk nor on the column-chunk
+   size of the missing-value scan (a table without rows: provided the reader yields an empty chunk) *)
+Theorem C10_rc_chunk_free : forall ec cr cc columns o lb rowsm,
+  1 <= cr -> 1 <= cc -> rowsm <> [] \/ ec = true ->
+  pc_read_rc ec cr cc columns o lb rowsm
+  = pc_read_spec columns o lb (map fst rowsm) (pc_nan_cols columns rowsm).
+Proof. exact read_rc_chunk_free. Qed.
+Print Assumptions C10_rc_chunk_free.
+
+(* the same for ANY partition of the rows into at least one row batch (batches of unequal or zero length) *)
+Theorem C10_rc_any_partition : forall cc k columns lb chunks,
+  1 <= cc -> class_ok k -> chunks <> [] ->
+  pc_scan_with (pc_slice_rc columns k) cc k columns lb chunks
+  = pc_scan_spec k columns lb (map fst (concat chunks)) (pc_nan_cols columns (concat chunks)).
+Proof. exact scan_parts_chunk_free. Qed.
+Print Assumptions C10_rc_any_partition.
+
+(* what the chunk-free result is, cell by cell: dropped = exactly the non-reserved columns with a missing
+   cell anywhere in the file; one spectra entry per input row, in file order, with that row's identifier
+   cells; targets = the converted labels of all rows *)
+Theorem C10_rc_result : forall ec cr cc columns o lb rowsm d,
+  1 <= cr -> 1 <= cc -> rowsm <> [] \/ ec = true ->
+  pc_read_rc ec cr cc columns o lb rowsm = Ok d ->
+  d_features d = filter (fun c => negb (mem_str c (d_metadata d)) &&
+                                  negb (existsb (fun rm => pc_miss columns rm c) rowsm)) columns /\
+  d_spectra_rows d = map (fun rm => map (pc_cell columns (fst rm)) (d_spectrum d)) rowsm /\
+  d_targets d = map (fun rm => let v := pc_cell columns (fst rm) (d_target d) in
+                               if lb then negb (v =? 0)%Z else (v =? 1)%Z) rowsm /\
+  length (d_spectra_rows d) = length rowsm /\ length (d_targets d) = length rowsm.
+Proof. exact read_rc_result. Qed.
+Print Assumptions C10_rc_result.
+
+Theorem C10_rc_success : forall ec cr cc columns o lb rowsm k targets,
+  1 <= cr -> 1 <= cc -> rowsm <> [] \/ ec = true ->
+  pc_classify columns o = Ok k ->
+  pc_convert_targets lb (map (fun rm => pc_cell columns (fst rm) (k_label k)) rowsm) = Ok targets ->
+  exists d, pc_read_rc ec cr cc columns o lb rowsm = Ok d.
+Proof. exact read_rc_success. Qed.
+Print Assumptions C10_rc_success.
+
+(* the premise "at least one row chunk" cannot be dropped: a table without rows read by a reader that
+   yields no chunk (Parquet) is rejected (known finding read_pin:parquet-zero-rows), with the single
+   empty chunk of the text readers it parses into a dataset without entries *)
+Theorem C10_rc_no_chunk : forall cr cc columns o lb k,
+  pc_classify columns o = Ok k -> pc_read_rc false cr cc columns o lb [] = Err EValue.
+Proof. exact read_rc_no_chunk. Qed.
+Print Assumptions C10_rc_no_chunk.
+
+Theorem C10_rc_empty_chunk : forall cr cc columns o lb k,
+  1 <= cr -> 1 <= cc -> pc_classify columns o = Ok k ->
+  exists d, pc_read_rc true cr cc columns o lb [] = Ok d /\ d_spectra_rows d = [] /\ d_targets d = [].
+Proof. exact read_rc_empty_chunk. Qed.
+Print Assumptions C10_rc_empty_chunk.
+
+(* row-chunk size 0 is an error (pandas / pyarrow: ValueError) *)
+Theorem C10_rc_zero : forall ec cc k columns lb rowsm, pc_scan_rc ec 0 cc k columns lb rowsm = Err EValue.
+Proof. exact scan_rc_zero. Qed.
+Print Assumptions C10_rc_zero.
+
+(* row-chunk sizes that reach the end of the table are interchangeable (the harness caps 2000000) *)
+Theorem C10_rc_large : forall (A : Type) ec c1 c2 (rows : list A),
+  1 <= c1 -> 1 <= c2 -> length rows <= c1 -> length rows <= c2 ->
+  pc_row_chunks ec c1 rows = pc_row_chunks ec c2 rows.
+Proof. exact @row_chunks_large. Qed.
+Print Assumptions C10_rc_large.
+
+(* the early exit of seeded/C10-4 (leave the row-chunk loop once every column of the slice is known to be
+   incomplete) is NOT chunk-independent: a table with three rows whose spectra table has one entry when
+   read in three row chunks and three entries when read in one, whereas the model of the code agrees *)
+Theorem C10_rc_early_exit_refuted :
+  exists columns o lb rowsm cc d1 d3,
+    pc_read_early true 1 cc columns o lb rowsm = Ok d1 /\
+    pc_read_early true 3 cc columns o lb rowsm = Ok d3 /\
+    length (d_spectra_rows d1) = 1 /\ length (d_spectra_rows d3) = 3 /\ length rowsm = 3 /\
+    pc_read_rc true 1 cc columns o lb rowsm = pc_read_rc true 3 cc columns o lb rowsm.
+Proof. exact early_exit_refuted. Qed.
+Print Assumptions C10_rc_early_exit_refuted.
+
 (* non-vacuity: 18 features + 3 identifier columns at chunk size 19 (the case that used to fail),
    a NaN feature is dropped, -1 labels are decoys *)
 Definition s (l : list Z) : str := l.
@@ -90,4 +184,43 @@ Proof. vm_compute. repeat split. Qed.
 Example C10_example_ids_together :
   pc_chunks_with_ids (seq 0 18) [100;101;102] 19 = [seq 0 18; [100;101;102]] /\
   pc_chunks_with_ids (seq 0 4) [100;101;102] 2 = [[0;1];[2;3];[100;101;102]].
+Proof. vm_compute. split; reflexivity. Qed.
+
+(* the trigger shape of seeded/C10-4: 2 features + 3 identifier columns at column-chunk size 2 give the
+   slices [f1;f2] and [ScanNr;ExpMass;Label] (identifier columns only); three rows read in three row
+   chunks (chunk_rows = 1); f2 is missing in the second row chunk only.  All three rows are kept, f2 is
+   dropped; every row-chunk size gives the same dataset, and it is the one of the [nan_cols] interface. *)
+Example C10_example_rc_slices :
+  pc_chunks_with_ids [[102;49];[102;50]]%Z [[83;99;97;110;78;114];[69;120;112;77;97;115;115];[76;97;98;101;108]]%Z 2
+  = [[[102;49];[102;50]]; [[83;99;97;110;78;114];[69;120;112;77;97;115;115];[76;97;98;101;108]]]%Z /\
+  pc_row_chunks true 1 rc_ex_rows = map (fun r => [r]) rc_ex_rows /\ length (pc_row_chunks true 1 rc_ex_rows) = 3.
+Proof. vm_compute. repeat split. Qed.
+Example C10_example_rc :
+  match pc_read_rc true 1 2 rc_ex_cols rc_ex_opts false rc_ex_rows with
+  | Ok d => d_features d = [[102;49]%Z] /\ d_targets d = [true; false; true] /\
+            d_spectra_rows d = [[7;9];[8;9];[6;4]]%Z /\
+            d_spectrum d = [[83;99;97;110;78;114];[69;120;112;77;97;115;115]]%Z /\
+            pc_read_rc true 2 2 rc_ex_cols rc_ex_opts false rc_ex_rows = Ok d /\
+            pc_read_rc true 3 2 rc_ex_cols rc_ex_opts false rc_ex_rows = Ok d /\
+            pc_read_rc true 1 19 rc_ex_cols rc_ex_opts false rc_ex_rows = Ok d /\
+            pc_read_rc false 7 1 rc_ex_cols rc_ex_opts false rc_ex_rows = Ok d /\
+            pc_read 2 rc_ex_cols rc_ex_opts false (map fst rc_ex_rows) (pc_nan_cols rc_ex_cols rc_ex_rows) = Ok d /\
+            pc_nan_cols rc_ex_cols rc_ex_rows = [[102;50]%Z]
+  | Err _ => False
+  end.
+Proof. vm_compute. repeat split. Qed.
+(* the premises of C10_rc_chunk_free / C10_rc_result hold for it *)
+Example C10_example_rc_premises : 1 <= 1 /\ 1 <= 2 /\ (rc_ex_rows <> [] \/ true = true).
+Proof. split; [|split]; [apply le_n|apply le_S, le_n|right; reflexivity]. Qed.
+(* the early-exit variant on the same table: the identifier-only slice stops after the first row chunk *)
+Example C10_example_rc_early :
+  match pc_read_early true 1 2 rc_ex_cols rc_ex_opts false rc_ex_rows with
+  | Ok d => d_spectra_rows d = [[7;9]]%Z /\ d_targets d = [true]
+  | Err _ => False
+  end.
+Proof. vm_compute. repeat split. Qed.
+(* chunk sizes 0 *)
+Example C10_example_rc_zero :
+  pc_read_rc true 0 2 rc_ex_cols rc_ex_opts false rc_ex_rows = Err EValue /\
+  pc_read_rc true 1 0 rc_ex_cols rc_ex_opts false rc_ex_rows = Err EValue.
 Proof. vm_compute. split; reflexivity. Qed.
